@@ -256,6 +256,7 @@ type stringPropIter struct {
 	str         String // separate, because obj can be the singleton
 	obj         *stringObject
 	idx, length int
+	rest        iterNextFunc // the ordinary keys, snapshotted when the iteration was created
 }
 
 func (i *stringPropIter) next() (propIterItem, iterNextFunc) {
@@ -265,7 +266,7 @@ func (i *stringPropIter) next() (propIterItem, iterNextFunc) {
 		return propIterItem{name: asciiString(name), enumerable: _ENUM_TRUE}, i.next
 	}
 
-	return i.obj.baseObject.iterateStringKeys()()
+	return i.rest()
 }
 
 func (s *stringObject) iterateStringKeys() iterNextFunc {
@@ -273,6 +274,7 @@ func (s *stringObject) iterateStringKeys() iterNextFunc {
 		str:    s.value,
 		obj:    s,
 		length: s.length,
+		rest:   s.baseObject.iterateStringKeys(),
 	}).next
 }
 
